@@ -25,6 +25,9 @@ import (
 //
 //go:norace
 func (g *Engine) Start() error {
+	g.mux.Lock()
+	g.stopping = false
+	g.mux.Unlock()
 	g.connsUnix = make([]*Conn, MaxOpenFiles)
 
 	// Create pollers and listeners.
